@@ -1028,6 +1028,53 @@ def manual_loop(body, ki, oi, itname, clauses, qualname):
     return body[:ki] + rep + body[ce + 1:]
 
 
+# ----------------------------------------------------------------------------- R7b: macro-generated functions
+def expand_macro_fn(repo, rel, fn_name, macro_rel, macro_name):
+    """R7b: a function generated by `macro_name!(fn_name, ARGS..);` in `rel`, where `macro_name` is a macro_rules! with ONE arm whose
+    parameters are single fragments (`$x: ident`, `$y: expr`; no repetitions), is expanded by textual substitution of the fragments
+    (the transcription rule of the Rust reference for non-repeating metavariables). Returns (virtual_rel, provenance)."""
+    raw, src = repo.src(rel)
+    _, msrc = repo.src(macro_rel)
+    # the invocation whose first argument is fn_name
+    im = re.search(r'\b' + re.escape(macro_name) + r'!\s*\(\s*' + re.escape(fn_name) + r'\s*,', src)
+    if not im:
+        raise ExtractError("R7b: no invocation %s!(%s, ..) in %s" % (macro_name, fn_name, rel))
+    o = src.index('(', im.start())
+    c = match_close(src, o, '(', ')')
+    args = [a.strip() for a in _split_args(src[o + 1:c])]
+    dm = re.search(r'macro_rules!\s+' + re.escape(macro_name) + r'\s*\{', msrc)
+    if not dm:
+        raise ExtractError("R7b: macro_rules! %s not found in %s" % (macro_name, macro_rel))
+    mo = msrc.index('{', dm.start())
+    mc = match_close(msrc, mo, '{', '}')
+    arm = msrc[mo + 1:mc]
+    po = arm.index('(')
+    pc = match_close(arm, po, '(', ')')
+    params_txt = arm[po + 1:pc]
+    if '$(' in arm or arm.count('=>') < 1:
+        raise ExtractError("R7b: macro %s uses repetitions - outside the supported subset" % macro_name)
+    params = re.findall(r'\$([A-Za-z_][A-Za-z0-9_]*)\s*:\s*([a-z]+)', params_txt)
+    if len(params) != len(args):
+        raise ExtractError("R7b: %s! takes %d fragments, invocation has %d arguments" % (macro_name, len(params), len(args)))
+    bo = arm.index('{', arm.index('=>', pc))
+    bc = match_close(arm, bo, '{', '}')
+    if re.search(r'\(\s*\$', arm[bc + 1:]):
+        raise ExtractError("R7b: macro %s has more than one arm" % macro_name)
+    body = arm[bo + 1:bc]
+    for (pname, frag), val in sorted(zip(params, args), key=lambda t: -len(t[0][0])):
+        body = re.sub(r'\$' + re.escape(pname) + r'\b', lambda _m, v=val: v, body)
+    if '$' in body:
+        raise ExtractError("R7b: unsubstituted metavariable left in the expansion of %s!(%s..)" % (macro_name, fn_name))
+    import textwrap
+    body = textwrap.dedent(body.strip('\n')) + '\n'
+    body = strip_comments(body)
+    vrel = '%s#%s' % (rel, fn_name)
+    repo.cache[vrel] = (body, body)
+    prov = {'generated_by': '%s!' % macro_name, 'invocation': {'file': rel, 'line': line_of(src, im.start()), 'arguments': args},
+            'macro_definition': {'file': macro_rel, 'lines': [line_of(msrc, dm.start()), line_of(msrc, mc)], 'sha256': hashlib.sha256(msrc[dm.start():mc + 1].encode()).hexdigest()}}
+    return vrel, prov
+
+
 # ----------------------------------------------------------------------------- template processing
 
 def parse_kv(tokens):
@@ -1189,10 +1236,16 @@ def process_template(template_path, repo_root, include_dirs=(), restrict=()):
                 raise ExtractError("//@fn %s without //@end" % qual)
             i += 1
             start = len(out_lines) + 1
+            macro_prov = None
+            if kv.get('via'):
+                mrel, mname = kv['via'].rsplit(':', 1)
+                rel, macro_prov = expand_macro_fn(repo, rel, qual, mrel, mname)
             emit(extract_fn(repo, rel, qual, contract, loops, ats, rewrites, stub=('stub' in flags),
                             ret_name=kv.get('ret', 'r'), impl_header=impl_header, info=items,
                             props=kv.get('props', '').split(',') if kv.get('props') else [], emit_as=kv.get('as'), attrs=fn_attrs,
                             desugar=('desugar' in flags)))
+            if macro_prov is not None:
+                items[-1]['R7b_macro_expansion'] = macro_prov
             if kv.get('as'):
                 qual = (impl_header.split(' for ')[-1] + '::' if impl_header and ' for ' in impl_header else '') + kv['as']
                 items[-1]['name'] = qual
